@@ -236,7 +236,8 @@ Fixpoint touched (s : fs) (pl : list (stage * fs_op)) : list path :=
   | (st, op) :: r => op_touched s op ++ touched (apply_op s op) r
   end.
 
-(* _show_diffs(old, new): some *.py below new exists below old with different content *)
+(* _show_diffs(old, new): some *.py below new is missing below old or has different bytes there, or some
+   *.py below old has no counterpart below new *)
 Definition is_py (p : path) : bool := suffixb s_dot_py (last p []).
 Definition diff_dir (s : fs) (old new : path) : bool :=
   existsb (fun kv =>
@@ -244,8 +245,14 @@ Definition diff_dir (s : fs) (old new : path) : bool :=
     | File t => under new (fst kv) && is_py (fst kv)
                 && match lookup (old ++ skipn (length new) (fst kv)) s with
                    | Some (File t') => negb (N.eqb t t')
-                   | _ => false
+                   | _ => true
                    end
+    | Dir => false
+    end) s
+  || existsb (fun kv =>
+    match snd kv with
+    | File _ => under old (fst kv) && is_py (fst kv)
+                && negb (exists_b s (new ++ skipn (length old) (fst kv)))
     | Dir => false
     end) s.
 Definition has_diff (c : config) (s : fs) : bool :=
